@@ -49,6 +49,9 @@ def hwDump (chips : List Chip) : String :=
     s!" [{c.name};{c.platform};{c.path};fans={fstr};temps={tstr}]"
   s!"n={chips.length}" ++ String.join (chips.map one)
 
+/-- position of the failing entry: the text after the last `@` of `"<tag>@<i>"` -/
+def hwErrAt (e : String) : String := ((e.splitOn "@").getLast?).getD "?"
+
 def hwmonStep (st : HwmonDrvSt) (op : String) (a : KV) : HwmonDrvSt × String :=
   match op with
   | "hw.tree" =>
@@ -69,20 +72,27 @@ def hwmonStep (st : HwmonDrvSt) (op : String) (a : KV) : HwmonDrvSt × String :=
     | .err _ => (st, "err")
     | .panic s => (st, s!"panic:{panicClass s}")
   | "hw.bindsensors" =>
-    -- several entries in one `initializeSensors` call: the loop binds each entry independently and the call fails
-    -- with the first entry that has no device
+    -- several entries in one `initializeSensors` call (`Hwmon.bindSensors`)
     let sels : List SensorSel := ((a.str "sels" "").splitOn ";").filterMap fun t =>
       match t.splitOn ":" with
       | [p, i] => some { platform := p, index := (i.toInt?).getD 0 }
       | _ => none
-    let rec go (i : Nat) (acc : List String) : List SensorSel → String
-      | [] => "ok inputs=" ++ ",".intercalate acc.reverse
-      | sel :: rest =>
-        match bindSensor ciContains st.chips sel with
-        | .ok p => go (i + 1) (p :: acc) rest
-        | .err _ => s!"err at={i}"
-        | .panic s => s!"panic:{panicClass s}"
-    (st, go 0 [] sels)
+    match bindSensors ciContains st.chips sels with
+    | .ok ps => (st, "ok inputs=" ++ ",".intercalate ps)
+    | .err e => (st, s!"err at={hwErrAt e}")
+    | .panic s => (st, s!"panic:{panicClass s}")
+  | "hw.bindfans" =>
+    -- several entries in one `initializeFans` call (`Hwmon.bindFans`)
+    let sels : List FanSel := ((a.str "sels" "").splitOn ";").filterMap fun t =>
+      match t.splitOn ":" with
+      | [p, i, r, w] => some { platform := p, index := (i.toInt?).getD 0,
+                               rpmChannel := (r.toInt?).getD 0, pwmChannel := (w.toInt?).getD 0 }
+      | _ => none
+    match bindFans ciContains st.chips sels with
+    | .ok bs =>
+      (st, "ok fans=" ++ ",".intercalate (bs.map fun b => s!"{b.rpmInputPath}|{b.pwmPath}|{b.pwmEnablePath}"))
+    | .err e => (st, s!"err at={hwErrAt e}")
+    | .panic s => (st, s!"panic:{panicClass s}")
   | _ => (st, "bad-op")
 
 end Driver
